@@ -340,6 +340,14 @@ def find_item(src, path_parts, first_ok=False):
     res = rec(0, len(src.sig), list(path_parts), [])
     if not res:
         return None, []
+    if len(res) > 1:
+        # items duplicated under `#[cfg(feature = "x")]` / `#[cfg(not(feature = "x"))]`: keep the
+        # definition that is active in the default build (no optional feature switched on)
+        def attrs(it):
+            return "".join(t.text for t in src.sig[it.first:it.start_nonattr]) if it.start_nonattr is not None else ""
+        keep = [r for r in res if not re.search(r"#\[cfg\(feature=", attrs(r[0]).replace(" ", ""))]
+        if len(keep) >= 1:
+            res = keep
     if len(res) > 1 and not first_ok:
         raise LexError("%s: ambiguous item %r (%d matches)" % (src.path, " :: ".join(path_parts), len(res)))
     return res[0]
